@@ -141,7 +141,7 @@ class SymBytes:
         return self
 
     def __sx_memoryview__(self):
-        return self
+        return SymView(self)
 
     def tobytes(self):
         return self
@@ -180,6 +180,49 @@ class SymBytes:
 
     def index(self, sub, *a):
         return self.concrete().index(sub, *a)
+
+
+class SymView:
+    """memoryview() of a SymBytes: slices stay views, tobytes() gives bytes / SymBytes"""
+    __sx_sym__ = True
+
+    def __init__(self, data):
+        self.obj = data
+
+    def __len__(self):
+        return len(self.obj)
+
+    def __sx_len__(self):
+        return len(self.obj)
+
+    def __getitem__(self, k):
+        r = self.obj[k]
+        if isinstance(k, slice):
+            return SymView(r)
+        return r
+
+    def tobytes(self):
+        return self.obj
+
+    def tolist(self):
+        return list(self.obj) if isinstance(self.obj, (bytes, bytearray)) else self.obj.items()
+
+    def __sx_bytes__(self):
+        return self.obj
+
+    def __iter__(self):
+        return iter(self.tolist())
+
+    def release(self):
+        pass
+
+    def __eq__(self, o):
+        if isinstance(o, SymView):
+            o = o.obj
+        return self.obj == o
+
+    def __hash__(self):
+        return id(self)
 
 
 def fresh_bytes(name, n, register=True):
